@@ -25,14 +25,19 @@ ASSUMPTIONS = ["a fresh Phonopy object given copies of the final fc/NAC/masses i
                "value alphabet is finite (two fc sets, two datasets, two mass sets, three NAC settings, one cutoff radius)"]
 BUDGET = {"quick": 900, "thorough": 3400}
 
-XTAL = {"NaCl": ("NaCl-prim-2", [[2, 0, 0], [0, 1, 0], [0, 0, 1]]), "wz": ("wurtzite-4", [[1, 0, 0], [0, 1, 0], [0, 0, 1]])}
+XTAL = {"NaCl": ("NaCl-prim-2", [[2, 0, 0], [0, 1, 0], [0, 0, 1]]), "wz": ("wurtzite-4", [[1, 0, 0], [0, 1, 0], [0, 0, 1]]),
+        # conventional cell with atoms listed Na,Cl,Na,Cl,... and a primitive matrix: unit-cell, supercell and primitive atoms are
+        # related by non-trivial index maps
+        "NaClF": ("NaCl-conv-8-interleaved", [[1, 0, 0], [0, 1, 0], [0, 0, 1]], "F")}
+NACNAME = {"NaCl-conv-8-interleaved": "NaCl-prim-2"}
 
-OPS = ["fcA", "fcB", "fcAc", "dsD1", "dsD2", "prodF", "prodC", "gen", "sym1", "symsg", "cut", "nacN", "nacW", "nacG", "nacG2",
-       "m0", "m1", "copy", "setF", "qQ", "qM", "qB"]
-QUERIES = ("qQ", "qM", "qB")
+OPS = ["fcA", "fcB", "fcAc", "fcV", "dsD1", "dsD2", "prodF", "prodC", "gen", "sym1", "symsg", "cut", "nacN", "nacW", "nacG", "nacG2",
+       "m0", "m1", "copy", "setF", "qQ", "qQd", "qM", "qB"]
+QUERIES = ("qQ", "qQd", "qM", "qB")
 # (root history, depth) per system: searching from non-initial states reaches longer histories at the same cost
-ROOTS = {"quick": {"NaCl": [([], 2), (["fcA"], 3), (["fcB", "nacG"], 2)], "wz": [(["fcB"], 2)]},
-         "thorough": {"NaCl": [([], 3), (["fcA"], 4), (["fcB", "nacG"], 3), (["fcAc", "nacG", "qQ"], 3)], "wz": [([], 2), (["fcB"], 3)]}}
+ROOTS = {"quick": {"NaCl": [([], 2), (["fcA"], 3), (["fcB", "nacG"], 2)], "wz": [(["fcB"], 2), (["fcA"], 2)], "NaClF": [(["fcA"], 2)]},
+         "thorough": {"NaCl": [([], 3), (["fcA"], 4), (["fcB", "nacG"], 3), (["fcAc", "nacG", "qQ"], 3)], "wz": [([], 2), (["fcB"], 3), (["fcA"], 3)],
+                      "NaClF": [([], 2), (["fcA"], 3), (["fcV", "m1"], 3)]}}
 
 _env = {}
 
@@ -46,15 +51,16 @@ def _setup(system, seed):
     from vtk import scenarios as SC
     from vtk.ref import springs as SP
 
-    name, S = XTAL[system]
+    name, S = XTAL[system][:2]
+    P = XTAL[system][2] if len(XTAL[system]) > 2 else None
     c = phx.xtal(name)
-    ph = phx.make_phonopy(c, S, None)
+    ph = phx.make_phonopy(c, S, P)
     A = phx.supercell_fc(ph, phx.model_for(ph, "nn", seed))
     B = phx.supercell_fc(ph, phx.model_for(ph, "nn", seed + 17)) * 1.3
     # the second value set is deliberately NOT symmetric (drift + asymmetry), so that the symmetrisers and the cutoff change it
     B = B + 0.03 * np.abs(B).max() * np.random.default_rng(3 + seed).normal(size=B.shape)
     p2s = np.asarray(ph.primitive.p2s_map)
-    env = {"c": c, "S": S, "A": A, "B": B, "Ac": A[p2s].copy(), "name": name}
+    env = {"c": c, "S": S, "P": P, "A": A, "B": B, "Ac": A[p2s].copy(), "name": name}
     for tag, dist, fc in (("D1", 0.01, A), ("D2", 0.03, B)):
         phx.quiet(ph.generate_displacements, distance=dist)
         ds = copy.deepcopy(ph.dataset)
@@ -65,10 +71,11 @@ def _setup(system, seed):
     m0 = np.array(ph.masses, float)
     env["m0"] = m0
     env["m1"] = m0 * np.linspace(1.1, 1.6, len(m0))
-    env["W"] = SC.nac_params(name, "wang")
-    env["G"] = SC.nac_params(name, "gonze")
+    nacname = NACNAME.get(name, name)
+    env["W"] = SC.nac_params(nacname, "wang")
+    env["G"] = SC.nac_params(nacname, "gonze")
     env["G"]["G_cutoff"] = 0.75  # smaller reciprocal sum: same code path, 3-4x cheaper (accuracy is C08's subject)
-    G2 = SC.nac_params(name, "gonze")
+    G2 = SC.nac_params(nacname, "gonze")
     G2["G_cutoff"] = 0.75
     G2["born"] = G2["born"] * 0.5
     env["G2"] = G2
@@ -81,7 +88,7 @@ def _setup(system, seed):
 def _fresh(env, **kw):
     from vtk import phx
 
-    return phx.make_phonopy(env["c"], env["S"], None, **kw)
+    return phx.make_phonopy(env["c"], env["S"], env.get("P"), **kw)
 
 
 QS = np.array([[0.0, 0, 0], [0.1, 0.2, 0.3], [0.5, 0, 0], [0.0, 0.0, 0.02]])
@@ -190,6 +197,13 @@ class Run:
         ph, env = self.ph, self.env
         if op in ("fcA", "fcB", "fcAc"):
             ph.force_constants = self.give("force_constants", env[{"fcA": "A", "fcB": "B", "fcAc": "Ac"}[op]])
+        elif op == "fcV":
+            # a view of a caller-owned buffer (what reshape()/slicing of a larger array gives): phonopy must not adopt it
+            buf = np.array(env["B"], dtype="double", order="C").ravel().copy()
+            view = buf.reshape(env["B"].shape)
+            self.inputs.append(("force_constants_view", view, view.copy()))
+            self._keep = getattr(self, "_keep", []) + [buf]
+            ph.force_constants = view
         elif op in ("dsD1", "dsD2"):
             ph.dataset = self.give_dataset("dataset", env[op[2:]])
             _ = ph.supercells_with_displacements  # the normal workflow reads the displaced cells (builds a cache)
@@ -219,6 +233,9 @@ class Run:
             self.ph = phx.quiet(ph.copy)
         elif op == "qQ":
             ph.run_qpoints(QS[:2], with_eigenvectors=True, with_group_velocities=True)
+        elif op == "qQd":
+            # a query with a symmetry-breaking direction (it may leave the direction behind)
+            ph.run_qpoints(QS, with_group_velocities=True, nac_q_direction=[1.0, 0.0, 0.0])
         elif op == "qM":
             ph.run_mesh([2, 2, 2], with_group_velocities=True)
         elif op == "qB":
@@ -257,6 +274,13 @@ def canon(run):
     for attr in ("_mesh", "_band_structure", "_qpoints", "_group_velocity", "_supercells_with_displacements", "_pdos", "_total_dos", "_thermal_properties"):
         add(getattr(ph, attr, None) is not None)
     add(len(run.origins) > 0)
+    # which arrays of the caller the object currently shares memory with (part of the state of caller + object)
+    shared = set()
+    for k, live, _ in run.inputs:
+        for nm, internal in (("fc", fc), ("masses", getattr(ph.primitive, "_masses", None)), ("born", None if nac is None else nac["born"])):
+            if isinstance(internal, np.ndarray) and np.shares_memory(internal, live):
+                shared.add((k, nm))
+    add(sorted(shared))
     return h.hexdigest()[:20]
 
 
@@ -358,6 +382,13 @@ def run_history(system, seed, hist, check=True):
             fail("setter/masses", "masses getter does not return what was set")
         if "fc" in exp and exp["fc"] is not None and (ph.force_constants.shape != exp["fc"].shape or np.abs(ph.force_constants - exp["fc"]).max() > 1e-12):
             fail("setter/force_constants", "force_constants getter does not return what was set")
+    # (vi) the masses of the three cells describe the same atoms (unit-cell / supercell atom -> primitive atom by geometry)
+    try:
+        bad = _mass_maps(ph)
+        if bad:
+            fail("masses-inconsistent-between-cells", bad)
+    except Exception as e:
+        fail("raised/masses", "%s: %s" % (type(e).__name__, str(e)[:200]))
     # (v) displaced supercells handed out agree with the current dataset (reading them builds a cache)
     try:
         ds = ph.dataset
@@ -446,6 +477,23 @@ def run_history(system, seed, hist, check=True):
     return done()
 
 
+def _mass_maps(ph):
+    """Every atom of the unit cell and of the supercell carries the mass of the primitive atom it is a lattice translate of."""
+    pr = ph.primitive
+    Lp = np.asarray(pr.cell)
+    pp = np.asarray(pr.positions)
+    for nm, cell in (("unitcell", ph.unitcell), ("supercell", ph.supercell)):
+        pos = np.asarray(cell.positions)
+        for i in range(len(cell)):
+            fr = (pos[i][None, :] - pp) @ np.linalg.inv(Lp)
+            j = np.where(np.abs(fr - np.rint(fr)).max(axis=1) < 1e-5)[0]
+            if len(j) != 1:
+                return "%s atom %d is a lattice translate of %d primitive atoms" % (nm, i, len(j))
+            if abs(cell.masses[i] - pr.masses[j[0]]) > 1e-12 * max(1.0, abs(pr.masses[j[0]])):
+                return "%s atom %d (%s) has mass %r but its primitive atom %d has %r" % (nm, i, cell.symbols[i], cell.masses[i], j[0], pr.masses[j[0]])
+    return None
+
+
 def _dmclass(ph):
     dm = getattr(ph, "_dynamical_matrix", None)
     return type(dm).__name__
@@ -460,8 +508,8 @@ def _expected_values(hist, env):
     for op in hist:
         if op in ("m0", "m1"):
             m = op
-        if op in ("fcA", "fcB", "fcAc"):
-            fc = env[{"fcA": "A", "fcB": "B", "fcAc": "Ac"}[op]]
+        if op in ("fcA", "fcB", "fcAc", "fcV"):
+            fc = env[{"fcA": "A", "fcB": "B", "fcAc": "Ac", "fcV": "B"}[op]]
             fc_valid = True
         if op in ("prodF", "prodC", "sym1", "symsg", "cut", "copy"):
             fc_valid = False
